@@ -16,7 +16,7 @@ pub fn run(ctx: &mut Ctx) {
     for case in ctx.cases("allorders", 400, true) {
         ctx.run_case("allorders", case, |ctx, rng| {
             let cl = gen_cnf(rng, 4);
-            let n = clauses_num_vars(&cl);
+            let n = clauses_to_cnf(&cl).num_vars();
             for p in all_perms(n) {
                 one(ctx, &cl, &p, rng.bool());
             }
@@ -52,7 +52,7 @@ pub fn run(ctx: &mut Ctx) {
     for case in ctx.cases("rand", 2500, true) {
         ctx.run_case("rand", case, |ctx, rng| {
             let cl = gen_cnf(rng, 9);
-            let n = clauses_num_vars(&cl);
+            let n = clauses_to_cnf(&cl).num_vars();
             let p = rng.perm(n);
             one(ctx, &cl, &p, false);
             one(ctx, &cl, &p, true);
@@ -107,7 +107,8 @@ fn gen_cnf(rng: &mut Rng, max_vars: usize) -> Clauses {
 }
 
 fn one(ctx: &mut Ctx, cl: &Clauses, perm: &[usize], semantic: bool) {
-    let n = perm.len();
+    // the order is over the CNF's own variables; the oracle table over the generator's
+    let n = usize::max(perm.len(), clauses_num_vars(cl));
     let cnf = clauses_to_cnf(cl);
     let order = VarOrder::new(&perm.iter().map(|x| VarLabel::new(*x as u64)).collect::<Vec<_>>());
     let exp = clauses_tt(cl, n);
